@@ -190,8 +190,9 @@ class Deriver:
     """Generates values for real spec objects. poison_at: index of the poisonable leaf that receives an
     out-of-domain value (None = never)."""
 
-    def __init__(self, rng, size_budget=40, poison_at=None):
+    def __init__(self, rng, size_budget=40, poison_at=None, top_overrides=None):
         self.rng = rng
+        self.top_overrides = top_overrides or {}   # forced member values of the top-level template
         self.size_budget = size_budget
         self.poison_at = poison_at
         self.poisonable_seen = 0
@@ -388,7 +389,10 @@ class Deriver:
         vals = {}
         sub = se.ParseContext(vals, parent=ctx)
         for name, field in spec._template_spec.items():
-            v = self.gen(field, sub, avoid)
+            if ctx is None and name in self.top_overrides:
+                v = self.top_overrides[name]
+            else:
+                v = self.gen(field, sub, avoid)
             fu = unwrap(field)
             if v is None and getattr(fu, "OPTIONAL", False) and spec._skip_missing:
                 continue
